@@ -122,7 +122,7 @@ theorem allowed_iff (rule : Option AllowList) (r : Req) (o : Bytes) (ho : r.orig
 theorem preflight_reports_config (al : AllowList) (r : Req) (o : Bytes) (page : Nat)
     (hm : r.method = OPTIONS) (ho : r.originRaw = some o) (hacrm : r.acrm = true)
     (hns : ¬ SameOrigin r o) (ha : allowed (some al) r = true) :
-    respond (some al) r page = ⟨204, false, some o, some al.methods, some al.headers, some al.maxAgeS⟩ := by
+    respond (some al) r page = ⟨204, false, some o, some al.methods, some al.headers, some al.maxAgeHeader⟩ := by
   have hso : (o.all visibleAscii && isPartOfOrigin o r.reqScheme r.reqAuthority) = false := by
     cases h : (o.all visibleAscii && isPartOfOrigin o r.reqScheme r.reqAuthority) with
     | false => rfl
@@ -145,5 +145,27 @@ theorem decision_cache_independent (page : Bytes) (hpage : ¬ startsWith page [4
   constructor
   · intro h; cases h; exact hpage (by decide)
   · intro h; cases h; exact hpage (by decide)
+
+/-- **the reported max-age is the configured duration, exactly**: for whole seconds the number itself — however large, no
+rounding —, otherwise the next whole second (the least number of seconds that is not shorter than the duration) -/
+theorem maxAge_exact (al : AllowList) (hn : al.maxAgeNanos < 1000000000) :
+    (al.maxAgeNanos = 0 → al.maxAgeHeader = al.maxAgeS) ∧
+    al.maxAgeS * 1000000000 + al.maxAgeNanos ≤ al.maxAgeHeader * 1000000000 ∧
+    (∀ n, al.maxAgeS * 1000000000 + al.maxAgeNanos ≤ n * 1000000000 → al.maxAgeHeader ≤ n) := by
+  unfold AllowList.maxAgeHeader
+  refine ⟨fun h => by simp [h], ?_, ?_⟩
+  · split <;> omega
+  · intro n h
+    split
+    · rename_i hp
+      -- n·10⁹ ≥ S·10⁹ + (a positive part) forces n > S
+      rcases Nat.lt_or_ge al.maxAgeS n with hlt | hge
+      · omega
+      · have : n * 1000000000 ≤ al.maxAgeS * 1000000000 := Nat.mul_le_mul_right _ hge
+        omega
+    · rcases Nat.lt_or_ge n al.maxAgeS with hlt | hge
+      · have : (n + 1) * 1000000000 ≤ al.maxAgeS * 1000000000 := Nat.mul_le_mul_right _ hlt
+        omega
+      · omega
 
 end Cors
